@@ -78,8 +78,8 @@ func (t *thing) Resolve(field *ggql.Field, args map[string]interface{}) (interfa
 // lres is a ggql.ListResolver
 type lres struct{ xs []interface{} }
 
-func (l *lres) Len() int                 { return len(l.xs) }
-func (l *lres) Nth(i int) interface{}    { return l.xs[i] }
+func (l *lres) Len() int              { return len(l.xs) }
+func (l *lres) Nth(i int) interface{} { return l.xs[i] }
 
 func (w *world) serve(field *ggql.Field, args map[string]interface{}) (interface{}, error) {
 	w.calls++
@@ -145,7 +145,7 @@ func newWorld(u *Universe, any bool, inTypes, outTypes []*TRef) *world {
 // ---------------------------------------------------------------- C04
 
 type inObs struct {
-	Out     string      // call | fielderr | varerr | other
+	Out     string // call | fielderr | varerr | other
 	Calls   int
 	Got     interface{} // the value received for x
 	Errs    []interface{}
@@ -355,11 +355,11 @@ func buildOut(v Val) interface{} {
 }
 
 type outObs struct {
-	Mem     interface{}         // data[field] as returned
-	JSON    interface{}         // data[field] after WriteJSONValue + encoding/json (json.Number), jsonErr if that failed
+	Mem     interface{} // data[field] as returned
+	JSON    interface{} // data[field] after WriteJSONValue + encoding/json (json.Number), jsonErr if that failed
 	JSONErr string
 	Text    string
-	Errs    map[string]bool     // error paths below the field ("" = the field itself), segments joined by "/"
+	Errs    map[string]bool // error paths below the field ("" = the field itself), segments joined by "/"
 	BadErr  string
 	Request string
 	Calls   int
